@@ -23,7 +23,8 @@
    Auxiliary semantics needed to follow a history (not what the property is about, kept as the
    library documents them): remove_label_values / remove / reset end the export of a child (older
    handles keep denoting the detached child, a later request creates a new one); a local vector
-   caches one child per tuple, buffers updates until flush, a local histogram flushes when dropped.
+   caches one child per tuple, buffers updates until flush, a local histogram flushes when dropped; a flushed batch
+   of observations enters the child's sum as one addend (the locally accumulated sum).
 
    [spec_c05]  = the walk with tuples compared for equality.
    [known_c05] = the recorded finding C05-fnv-collision, delimited: the walk succeeds when tuples
@@ -38,7 +39,7 @@ Open Scope N_scope.
 (* ---------- the abstract vector ---------- *)
 Inductive vkind := KCounter (k : numkind) | KGauge (k : numkind) | KHist.
 Record vinfo := mkVI { vi_kind : vkind; vi_names : list str; vi_consts : list (str * str) }.
-Record child := mkChild { c_vec : nat; c_tuple : list str; c_key : N; c_live : bool; c_val : numval; c_obs : list f64 }.
+Record child := mkChild { c_vec : nat; c_tuple : list str; c_key : N; c_live : bool; c_val : numval; c_obs : list f64; c_sum : f64 }.
 (* a local vector's cache entry: tuple, its key, child, buffered increment, buffered observations *)
 Definition centry := (list str * N * nat * numval * list f64)%type.
 Inductive sent := SNone | SVec (v : nat) | SChild (c : nat) | SLocal (v : nat) (cache : list centry).
@@ -109,12 +110,12 @@ Section Spec.
   Definition request (s : st) (v : nat) (info : vinfo) (t : list str * N) : st * nat :=
     match find_live v t (s_kids s) O with
     | Some (i, c) => (raise s (negb (tuple_eqb (c_tuple c) (fst t))), i)
-    | None => (set_kids s (s_kids s ++ [mkChild v (fst t) (snd t) true (kind_zero (vi_kind info)) []]), length (s_kids s))
+    | None => (set_kids s (s_kids s ++ [mkChild v (fst t) (snd t) true (kind_zero (vi_kind info)) [] f_zero]), length (s_kids s))
     end.
   Definition unexport (s : st) (v : nat) (t : list str * N) : option st :=
     match find_live v t (s_kids s) O with
     | Some (i, c) =>
-        Some (raise (set_kids s (upd_nth (s_kids s) i (fun c => mkChild (c_vec c) (c_tuple c) (c_key c) false (c_val c) (c_obs c))))
+        Some (raise (set_kids s (upd_nth (s_kids s) i (fun c => mkChild (c_vec c) (c_tuple c) (c_key c) false (c_val c) (c_obs c) (c_sum c))))
                     (negb (tuple_eqb (c_tuple c) (fst t))))
     | None => None
     end.
@@ -139,7 +140,7 @@ Section Spec.
                      end
        | KHist => match m_histogram m, m_counter m, m_gauge m with
                   | Some h, None, None =>
-                      (h_count h =? N.of_nat (length (c_obs c))) && f64_eqb (h_sum h) (obs_sum (c_obs c))
+                      (h_count h =? N.of_nat (length (c_obs c))) && f64_eqb (h_sum h) (c_sum c)
                       && forallb (fun b => b_cum b =? count_le (c_obs c) (b_upper b)) (h_bucket h)
                   | _, _, _ => false
                   end
@@ -178,8 +179,17 @@ Section Spec.
     | _ => cur
     end.
   Definition on_child (s : st) (c : nat) (f : child -> child) : st := set_kids s (upd_nth (s_kids s) c f).
-  Definition book_val (f : numval -> numval) (c : child) : child := mkChild (c_vec c) (c_tuple c) (c_key c) (c_live c) (f (c_val c)) (c_obs c).
-  Definition book_obs (xs : list f64) (c : child) : child := mkChild (c_vec c) (c_tuple c) (c_key c) (c_live c) (c_val c) (c_obs c ++ xs).
+  Definition book_val (f : numval -> numval) (c : child) : child := mkChild (c_vec c) (c_tuple c) (c_key c) (c_live c) (f (c_val c)) (c_obs c) (c_sum c).
+  (* a direct observation adds its value to the sum; a batch handed over by a local histogram adds its values and,
+     as ONE addend, the sum the local histogram accumulated for them (float addition is not associative, so the
+     order of additions is part of what a histogram shows; an empty batch changes nothing) *)
+  Definition book_observe (x : f64) (c : child) : child :=
+    mkChild (c_vec c) (c_tuple c) (c_key c) (c_live c) (c_val c) (c_obs c ++ [x]) (c_sum c + x)%float.
+  Definition book_batch (xs : list f64) (c : child) : child :=
+    match xs with
+    | [] => c
+    | _ => mkChild (c_vec c) (c_tuple c) (c_key c) (c_live c) (c_val c) (c_obs c ++ xs) (c_sum c + obs_sum xs)%float
+    end.
 
   (* ---------- local vectors ---------- *)
   Fixpoint cache_find (t : list str * N) (cache : list centry) : option centry :=
@@ -199,7 +209,7 @@ Section Spec.
     end.
   Definition flush_entry (s : st) (e : centry) : st :=
     let '(_, _, c, p, po) := e in
-    on_child s c (fun k => book_obs po (book_val (fun v => if num_is_zero p then v else num_add v p) k)).
+    on_child s c (fun k => book_batch po (book_val (fun v => if num_is_zero p then v else num_add v p) k)).
   Definition flush_all (s : st) (cache : list centry) : st := fold_left flush_entry cache s.
   Definition cleared (cache : list centry) : list centry :=
     map (fun e : centry => let '(t, k, c, p, po) := e in (t, k, c, zero_like p, @nil f64)) cache.
@@ -268,7 +278,7 @@ Section Spec.
         match ent s sl with
         | SVec v => if is_unit ob
                     then Some (set_kids s (map (fun c => if Nat.eqb (c_vec c) v
-                                                         then mkChild (c_vec c) (c_tuple c) (c_key c) false (c_val c) (c_obs c) else c) (s_kids s)))
+                                                         then mkChild (c_vec c) (c_tuple c) (c_key c) false (c_val c) (c_obs c) (c_sum c) else c) (s_kids s)))
                     else None
         | SChild c => if is_unit ob then Some (on_child s c (book_val zero_like)) else None
         | _ => Some s
@@ -288,7 +298,7 @@ Section Spec.
         end
     | OpObserve sl x =>
         match ent s sl with
-        | SChild c => if is_unit ob then Some (on_child s c (book_obs [x])) else None
+        | SChild c => if is_unit ob then Some (on_child s c (book_observe x)) else None
         | _ => Some s
         end
     | OpSampleCount sl =>
@@ -302,7 +312,7 @@ Section Spec.
     | OpSampleSum sl =>
         match ent s sl with
         | SChild c => match nth_error (s_kids s) c, ob with
-                      | Some k, OF64 x => if f64_eqb x (obs_sum (c_obs k)) then Some s else None
+                      | Some k, OF64 x => if f64_eqb x (c_sum k) then Some s else None
                       | _, _ => None
                       end
         | _ => Some s
